@@ -508,6 +508,15 @@ impl<'tcx> Facts<'tcx> {
                 if let ty::FnDef(did, args) = ty.kind() {
                     o = o.f("fn", self.callee_json(owner, *did, args));
                 }
+                if let mir::Const::Unevaluated(uv, _) = c.const_ {
+                    if let Some(p) = uv.promoted {
+                        if uv.def == owner {
+                            o = o.f("promoted", J::Int(p.as_usize() as i128));
+                        }
+                    } else {
+                        o = o.f("const_item", J::s(self.path(uv.def)));
+                    }
+                }
                 let tenv = TypingEnv::post_analysis(tcx, owner);
                 if ty.is_integral() || ty.is_bool() || ty.is_char() {
                     if let Some(si) = c.const_.try_eval_scalar_int(tcx, tenv) {
@@ -820,6 +829,20 @@ impl<'tcx> Facts<'tcx> {
             }
             let blocks: Vec<J> =
                 body.basic_blocks.iter().map(|bb| self.block(did, body, bb)).collect();
+            let mut promoted = Vec::new();
+            for pb in tcx.promoted_mir(did).iter() {
+                let pblocks: Vec<J> =
+                    pb.basic_blocks.iter().map(|bb| self.block(did, pb, bb)).collect();
+                let plocals: Vec<J> = pb
+                    .local_decls
+                    .iter()
+                    .map(|d| J::obj().f("ty", self.ty_tree(d.ty, 0)).done())
+                    .collect();
+                promoted.push(
+                    J::obj().f("locals", J::Arr(plocals)).f("blocks", J::Arr(pblocks)).done(),
+                );
+            }
+            o = o.f("promoted", J::Arr(promoted));
             out.push(
                 o.f("locals", J::Arr(locals))
                     .f("debug", J::Arr(dbg))
